@@ -10,6 +10,11 @@ R5  the index returned is decided by the dequeue results (tested, and guarding a
 R6  the dequeue function of every built-in waitable kind takes the wakers' lock on every path (= C13.R4), so that after the dequeue loop the
     record is registered nowhere.
 R4  cv side of the registration: records woken by signal/broadcast are unlinked first and, unless proven pooled, woken under the cv spinlock (C04.R3/R5).
+R7  note side of "count only once the deadline has passed": the dequeue function of a note reports "not ready" when it finds the note unmarked
+    after nsync_note_notified_deadline_, which is right only if that call marks an expired note before it returns - i.e. notify() returns
+    only with the note marked (= C08.R7, judged here for the wait_n result).
+R8  timeout side of the same clause: nsync_wait_n stops sleeping on any non-zero result of the timed semaphore wait; that result is non-zero
+    only where the kernel wait timed out and the re-read clock agrees (= C12.R3).
 Which index is reported under races is not decided."""
 from .. import util, ir as IR, wakeshape
 from ..bounds import _guards, _norm_cmp
@@ -285,6 +290,12 @@ def run(ctx, rep):
     rep.rules['C11.R4']['instances'] += r5['instances']; rep.rules['C11.R4']['obligations'] += r5['obligations']; rep.rules['C11.R4']['discharged'] += r5['discharged']
     for v in rep.violations[before:]:
         v.rule = 'C11.R4'
+    from .C08 import check_notify_returns_notified
+    rep.rule('C11.R7', 'an expired note is marked before its dequeue function decides (notify returns only with the note marked)')
+    check_notify_returns_notified(mod, rep, 'C11.R7')
+    from . import C12
+    rep.rule('C11.R8', 'the timed semaphore wait reports non-zero only for a kernel timeout confirmed by the clock')
+    C12.check_timeout_guards(mod, K, rep, 'C11.R8')
     rep.floor('C11.R1', 4)
     rep.floor('C11.R2', 2)
     rep.floor('C11.R3', 1)
